@@ -135,6 +135,15 @@ func (m *serverModel) serve(c *pipe.End, _ *pipe.Link) {
 		m.promptPrefix(len(prompt1), &k)
 		m.readLine(p.C2S.ReadBuf, &k)
 		<-m.stop
+	case "stall-after-prompt":
+		// prompts, then never reads: on a link with back-pressure the dialler's
+		// reply does not fit and its Write blocks
+		off := len(prompt1)
+		if sv.Off%2 == 1 {
+			off = total
+		}
+		m.promptPrefix(off, &k)
+		<-m.stop
 	case "close-now":
 		m.pause(0)
 		c.Close()
